@@ -6,6 +6,7 @@ import (
 	"sort"
 	"strings"
 	"sync"
+	"time"
 
 	"github.com/Fantom-foundation/lachesis-base/kvdb"
 	"github.com/Fantom-foundation/lachesis-base/kvdb/flushable"
@@ -557,4 +558,58 @@ func (m *poolModel) Apply(op []string) string {
 		return "nil"
 	}
 	panic("pool model: unknown op " + op[0])
+}
+
+// ------------------------------------------------------------------ SNAPMID
+
+// gateStore: a parent store whose GetSnapshot, once armed, takes the snapshot and then blocks until the gate opens
+type gateStore struct {
+	kvdb.Store
+	armed   bool
+	entered chan struct{}
+	gate    chan struct{}
+}
+
+func (g *gateStore) GetSnapshot() (kvdb.Snapshot, error) {
+	snap, err := g.Store.GetSnapshot()
+	if g.armed {
+		g.armed = false
+		close(g.entered)
+		<-g.gate
+	}
+	return snap, err
+}
+
+// snapMid: Put(a) is in the overlay; GetSnapshot runs in goroutine 1 and its parent snapshot blocks; meanwhile
+// goroutine 0 calls Flush.  A store that holds its read lock across the parent snapshot makes Flush wait (the gate
+// opens after a grace period) and the snapshot is [a=..].  A store that takes the parent snapshot outside its
+// critical section lets Flush move the pair into the parent and clear the overlay in between: the snapshot is the
+// OLD parent plus the NEW (empty) overlay = [] although the merged content was [a=..] at every instant.
+func snapMid() {
+	g := &gateStore{Store: memorydb.New(), entered: make(chan struct{}), gate: make(chan struct{})}
+	db := flushable.Wrap(g)
+	var h []rec
+	do := func(t int, op ...string) rec {
+		a := tick()
+		res := execKvOp(db, op)
+		b := tick()
+		return rec{t, a, b, op, res}
+	}
+	h = append(h, do(0, "Put", "a", "101"))
+	g.armed = true
+	var snapRec, flushRec rec
+	snapDone, flushDone := make(chan struct{}), make(chan struct{})
+	go func() { snapRec = do(1, "Snap"); close(snapDone) }()
+	<-g.entered
+	go func() { flushRec = do(0, "Flush"); close(flushDone) }()
+	select {
+	case <-flushDone:
+	case <-time.After(300 * time.Millisecond):
+	}
+	close(g.gate)
+	<-snapDone
+	<-flushDone
+	h = append(h, snapRec, flushRec)
+	h = append(h, do(0, "Snap"))
+	report(h, kvModel{newKvState()}, false)
 }
